@@ -199,21 +199,29 @@ class Deflater:
         return zlib.compressobj(self.level if level is None else level, zlib.DEFLATED,
                                 -self.wbits, self.mem_level)
 
-    def compress(self, data, strategy="sync"):
+    def compress(self, data, strategy="sync", limit=None):
+        """Returns the message payload, or None (and leaves the deflate context
+        untouched) when ``limit`` is given and the payload would be longer."""
         if strategy == "final":
             # BFINAL=1 ends the zlib stream: the history cannot be carried over
             c = self._new()
-            out = c.compress(data) + c.flush(zlib.Z_FINISH)
+            out = c.compress(data) + c.flush(zlib.Z_FINISH) + b"\x00"
+            if limit is not None and len(out) > limit:
+                return None
             self._c = None
-            return out + b"\x00"
+            return out
         if strategy == "stored":
             c = self._new(0)
-            out = c.compress(data) + c.flush(zlib.Z_SYNC_FLUSH)
+            out = (c.compress(data) + c.flush(zlib.Z_SYNC_FLUSH))[:-4]
+            if limit is not None and len(out) > limit:
+                return None
             self._c = None  # its history is not shared with the main compressor
-            return out[:-4]
+            return out
         c = self._c
         if c is None or self.nct:
             c = self._new()
+        elif limit is not None:
+            c = c.copy()  # trial run: commit only if the result is used
         if strategy == "multi" and len(data) >= 2:
             h = len(data) // 2
             out = (c.compress(data[:h]) + c.flush(zlib.Z_SYNC_FLUSH)
@@ -222,10 +230,13 @@ class Deflater:
             out = c.compress(data) + c.flush(zlib.Z_FULL_FLUSH)
         else:
             out = c.compress(data) + c.flush(zlib.Z_SYNC_FLUSH)
-        self._c = None if self.nct else c
         if not out.endswith(DEFLATE_TAIL):
             raise AssertionError("sync flush did not end with 00 00 ff ff")
-        return out[:-4]
+        out = out[:-4]
+        if limit is not None and len(out) > limit:
+            return None
+        self._c = None if self.nct else c
+        return out
 
 
 class InflateError(Exception):
